@@ -932,3 +932,90 @@ Proof.
   pose proof (x_construct_nf _ _ _ _ _ _ _ _ _ _ E) as X. cbv zeta in X.
   assert (A : forallb (has st) (ins ++ outs) = true) by (apply forallb_forall; exact Hall). rewrite A, Hq in X. exact X.
 Qed.
+
+(* ------------------------------------------------------------------ refinement: exec has the stated effect *)
+
+Lemma same_set_refl : forall a, same_set a a.
+Proof. intros [P|]; cbn; [tauto | exact I]. Qed.
+
+Lemma abs_same_get : forall st st' g, get st' g = get st g -> same_set (abs st' g) (abs st g).
+Proof. intros st st' g H. unfold abs. rewrite H. apply same_set_refl. Qed.
+
+Lemma init_names_init_graphs : forall s, init_names s = init_graphs s.
+Proof. intros []; reflexivity. Qed.
+
+Lemma has_getd : forall st g, has st g = true -> get st g = Some (getd st g).
+Proof. intros st g H. apply has_get in H. destruct H as [l H]. rewrite H. f_equal. symmetry. apply getd_get. exact H. Qed.
+
+Lemma write_effect : forall (add : bool) st st' gs ts,
+  names st' = names st ->
+  (forall g, ~ In g gs -> get st' g = get st g) ->
+  (forall g, In g gs -> has st g = true -> forall t, In t (getd st' g) <-> W add ts (getd st g) t) ->
+  apply_effect (Eff_write add gs ts) (abs st) (abs st').
+Proof.
+  intros add st st' gs ts N F C g. split.
+  - intro Hg. unfold abs. destruct (get st g) as [l|] eqn:G.
+    + assert (Hh : has st g = true) by (apply has_get; eexists; exact G).
+      assert (Hh' : has st' g = true) by (rewrite (has_names_eq _ _ g N); exact Hh).
+      rewrite (has_getd _ _ Hh'). cbn. intro t. rewrite (C g Hg Hh t). rewrite (getd_get _ _ _ G).
+      unfold W, written. destruct add; tauto.
+    + assert (Hh : has st g = false) by (apply has_false_get; exact G).
+      assert (Hh' : has st' g = false) by (rewrite (has_names_eq _ _ g N); exact Hh).
+      apply has_false_get in Hh'. rewrite Hh'. reflexivity.
+  - intro Hg. apply abs_same_get. apply F. exact Hg.
+Qed.
+
+Theorem step_has_effect : forall bulk st s, apply_effect (effect_of st s) (abs st) (abs (step bulk st s)).
+Proof.
+  intros bulk st s. unfold effect_of. rewrite init_names_init_graphs.
+  destruct (negb (static_ok s) || negb (forallb (has st) (init_graphs s))) eqn:R.
+  - destruct (rejected_step bulk st s R) as [E _]. rewrite E. intro g. apply same_set_refl.
+  - apply orb_false_iff in R. destruct R as [R1 R2]. apply negb_false_iff in R1, R2.
+    unfold step. destruct (exec bulk st s) as [r st'] eqn:E. cbn [snd].
+    destruct s.
+    + assert (Hg : gs <> []) by (destruct gs; [discriminate | discriminate]).
+      destruct (exec_create_spec bulk st gs r st' E Hg) as [A [B [C _]]]. intro g. unfold abs at 1.
+      destruct (get st g) as [l|] eqn:G.
+      * assert (Hh : has st g = true) by (apply has_get; eexists; exact G). unfold abs. rewrite (B g Hh), G. cbn. tauto.
+      * assert (Hh : has st g = false) by (apply has_false_get; exact G). split.
+        -- intro Hin. unfold abs. rewrite (C g Hin Hh). cbn. tauto.
+        -- intro Hin. unfold abs. assert (X : has st' g = false).
+           { rewrite A, Hh. cbn. apply (mem_false str_eqb str_eqb_ok). exact Hin. }
+           apply has_false_get in X. rewrite X. reflexivity.
+    + assert (Hg : gs <> []) by (destruct gs; [discriminate | discriminate]).
+      destruct (exec_drop_spec bulk st gs r st' E Hg) as [A [B _]]. intro g. split.
+      * intro Hin. unfold abs. assert (X : has st' g = false).
+        { rewrite A. apply andb_false_iff. right. apply negb_false_iff. apply (mem_In str_eqb str_eqb_ok). exact Hin. }
+        apply has_false_get in X. rewrite X. reflexivity.
+      * intro Hin. apply abs_same_get. apply B. exact Hin.
+    + cbn in R1. apply andb_true_iff in R1. destruct R1 as [G T].
+      assert (Hg : outs <> []) by (destruct outs; [discriminate | discriminate]).
+      assert (Ht : ts <> []) by (destruct ts; [discriminate | discriminate]).
+      destruct (exec_update_spec true bulk st outs ts r st' E Hg Ht) as [A [B [C _]]]. apply write_effect; assumption.
+    + cbn in R1. apply andb_true_iff in R1. destruct R1 as [G T].
+      assert (Hg : ins <> []) by (destruct ins; [discriminate | discriminate]).
+      assert (Ht : ts <> []) by (destruct ts; [discriminate | discriminate]).
+      destruct (exec_update_spec false bulk st ins ts r st' E Hg Ht) as [A [B [C _]]]. apply write_effect; assumption.
+    + cbn [init_graphs] in R2. destruct (q_ok q) eqn:Q.
+      * assert (Hall : forall g, In g (ins ++ outs) -> has st g = true) by (apply forallb_has_In; exact R2).
+        destruct (exec_construct_sent add bulk st tmpl outs ins wb q draw r st' E R1 Hall Q) as [_ C].
+        assert (F : forall g, ~ In g outs -> get st' g = get st g).
+        { intros g Hg. change st' with (snd (r, st')). rewrite <- E. apply (exec_frame bulk st _ g). exact Hg. }
+        assert (N : names st' = names st).
+        { rewrite exec_construct_unfold in E by exact R1.
+          destruct (x_construct add bulk no_faults (mkD st []) tmpl outs ins q draw) as [r0 d] eqn:X. inversion E; subst.
+          apply x_construct_frame in X. destruct X as [N _]. exact N. }
+        apply write_effect; [exact N | exact F | intros g Hg _; apply C; exact Hg].
+      * rewrite (exec_query_fail bulk st _ R1 R2 Q) in E. inversion E; subst. intro g. apply same_set_refl.
+    + pose proof (exec_readonly bulk st (SSelect ins vars wb q) I) as X. rewrite E in X. cbn in X. subst st'.
+      intro g. apply same_set_refl.
+    + pose proof (exec_readonly bulk st SShow I) as X. rewrite E in X. cbn in X. subst st'. intro g. apply same_set_refl.
+    + discriminate.
+Qed.
+
+Theorem run_follows : forall bulk ss st, follows bulk st ss (run bulk st ss).
+Proof.
+  intros bulk ss. induction ss as [|s ss IH]; intro st; [constructor|].
+  unfold run. cbn [fold_left]. fold (run bulk (step bulk st s) ss).
+  eapply F_cons; [apply step_has_effect | apply IH].
+Qed.
